@@ -550,7 +550,11 @@ impl<T: Transport + 'static> SyncEngine<T> {
             if !file.is_dir
                 && matches!(task.action, SyncAction::Skip | SyncAction::Create)
                 && task.source.as_ref().is_some_and(|f| !f.is_symlink)
-                && matches!(self.transport.read_link(&task.dest_path).await, Ok(Some(_)))
+                // (when the link probe itself fails the entry cannot be trusted either)
+                && matches!(
+                    self.transport.read_link(&task.dest_path).await,
+                    Ok(Some(_)) | Err(_)
+                )
             {
                 task.action = SyncAction::Update;
             }
